@@ -18,7 +18,7 @@ MANIFEST = {
              '(whole named columns move between index depths and data; in-and-out restores the index and returns a permutation of the columns). STACK: C20_stack_cells, '
              'C20_unstack_cells, C20_stack_unstack_roundtrip (original cells back at their labels, fill exactly where the column set is ragged), C20_stack_refines / '
              'C20_unstack_refines (the dictionary-and-position algorithms equal the label-keyed cell maps). PIVOT: C20_pivot_cell_refines, C20_pivot_refines, C20_pivot_shape, '
-             'C20_pivot_cell_sources. Refuted/C20.v holds the witnesses of the three findings whose faithful model misses the specification. '
+             'C20_pivot_cell_sources. Refuted/C20.v holds the witnesses of the two modelled findings whose faithful model misses the specification. '
              'Correspondence: API-level differential runs of join_inner/left/right/outer, set_index, set_index_hierarchy, unset_index, relabel_shift_in/out (both axes), '
              'pivot_stack, pivot_unstack, pivot through the public interface over enumerated block layouts, with the implementation model M and the specification S both '
              'evaluated inside Coq on the same inputs; kernel-level runs of pivot_index_map and extrapolate_column_fields.'),
@@ -27,7 +27,7 @@ MANIFEST = {
              'model (computed by NumPy itself per case). Partial: the non-composite join path is proved only for inner and guarded left joins (right/outer: model + correspondence '
              '+ refuted witness only); the M = S theorems speak about rows/columns as lists, block layouts are covered by enumeration in the correspondence, not by a theorem; '
              'dtypes of results are not compared (cells are compared as Python values); np.unique / iter_group sort order is a model parameter (Permutation hypothesis); '
-             'rehierarch and set_index_hierarchy(reorder_for_hierarchy=True) are only observed (row multiset), not modelled. Four known findings are listed in known/C20.jsonl.'),
+             'rehierarch and set_index_hierarchy(reorder_for_hierarchy=True) are only observed (row multiset), not modelled. Three known findings are listed in known/C20.jsonl; a fourth (pivot_unstack cast the fill into the source dtype) is repaired in /repo 8198989 and kept as a regression stratum; C20_unstack_refines is stated over the flag regenerated from the source, so reverting the repair breaks it.'),
     'technique': 'refinement of an implementation model to a relational specification (Coq) + differential runs of both inside Coq',
 }
 PROPERTY_FILES = ['Properties/C20.v']
@@ -59,6 +59,7 @@ NAN = float('nan')
 
 # ----------------------------------------------------------------------------- generated constants
 GENERATED_FILES = ['Gen/Gen_c20.v']
+SHARD_SIZE = 150       # 16 shards are elaborated at a time; keep each coqc small
 JOIN_ENTRY = ('join_inner', 'join_left', 'join_right', 'join_outer')
 
 
@@ -637,7 +638,6 @@ def set_index_cases(ctx):
 
 
 # ----------------------------------------------------------------------------- pivot_stack / pivot_unstack
-F_UNSTACK = 'C20-unstack-fill-cast-to-source-dtype'
 
 
 def _tup(label):
@@ -755,15 +755,15 @@ def unstack_case(ctx, f, depth_level, fill, stratum='api:pivot_unstack'):
     casts = [cast_fill(fill, dt) for dt in f.dtypes.values]
     cl = lit.lst([f'(Err {lit.s(lit.err_class(c))})' if isinstance(c, Exception) else f'(Ok {lit.val(c)})' for c in casts])
     out, g = obs_sframe(lambda: f.pivot_unstack(depth_level, fill_value=fill))
-    # class of the cast defect, from the input alone: a target missing in a group that is not the last
-    # group although the last group has it, and a source column whose dtype does not hold the fill value
+    # (repaired by /repo 8198989: a target missing under a group that is not the last one used to get the fill value
+    #  cast into the source dtype; those inputs are counted so that the regression stays exercised)
     groups = list(dict.fromkeys(g_ for g_, _ in split_rows))
     have = {g_: {t for gg, t in split_rows if gg == g_} for g_ in groups}
     hole_before_last = bool(groups) and any(t in have[groups[-1]] and any(t not in have[g_] for g_ in groups[:-1]) for t in {t for _, t in split_rows})
     lossy = any(isinstance(c, Exception) or not same_value(c, fill) for c in casts)
     tags = {'op': 'pivot_unstack', 'ragged': len(set(split_rows)) < len(groups) * len({t for _, t in split_rows})}
     if hole_before_last and lossy:
-        tags['finding'] = F_UNSTACK
+        ctx.count('unstack:regression-fill-not-castable-hole-before-last-group')
     ctx.count('unstack', f'unstack:index-depth={f.index.depth}', f'unstack:targets={sum(mask)}', f'unstack:fill={type(fill).__name__}',
               f'unstack:layout:{zoo.layout_str(zoo.layout_of(f))}', 'unstack:raised' if isinstance(g, Exception) else 'unstack:ok',
               'unstack:ragged' if tags['ragged'] else 'unstack:full')
@@ -843,6 +843,17 @@ UNSTACK_INDEX = {
     'deep': [('p', 1, 'x'), ('p', 1, 'y'), ('p', 2, 'x'), ('q', 1, 'y')],
     'flat': ['p', 'q', 'r'],
 }
+
+
+def unstack_regression(ctx):
+    '''The former witness of C20-unstack-fill-cast-to-source-dtype (fixed: /repo 8198989): the spec is the correct behaviour.'''
+    import static_frame as sf
+    for fill in (0.5, NAN, 'F', None):
+        for cols, dt in (([[1, 2, 3]], 'int'), ([['a', 'b', 'c']], 'str'), ([[True, False, True]], 'bool')):
+            f = zoo.frame_from_columns([col_array(c) for c in cols], ((1, False),), index=sf.IndexHierarchy.from_labels([('p', 'x'), ('q', 'x'), ('q', 'y')]),
+                                       columns=sf.Index(['v']))
+            c, _ = unstack_case(ctx, f, 1, fill, stratum='regression:unstack-fill-in-non-last-group')
+            yield c
 
 
 def unstack_cases(ctx):
@@ -1077,6 +1088,7 @@ def cases(ctx):
     yield from set_index_cases(ctx)
     yield from stack_cases(ctx)
     yield from unstack_cases(ctx)
+    yield from unstack_regression(ctx)
     yield from pivot_exhaustive(ctx)
     yield from pivot_layouts(ctx)
     yield from pivot_random(ctx)
